@@ -577,6 +577,56 @@ class Families:
         ex = set(exclude)
         return sorted(x for x in out if x not in ex)
 
+    def s0_sibling_pairs(self, exclude=(), table=0):
+        """minimal CFG sentence for every production P, every two nonterminal positions i < j of P and every pair of expansions
+        (C at i, D at j), where an expansion of N is a production of N or, through a unit production N -> M, a production of M
+        (so that both elements of a two-element list  L -> L sep X,  L -> X  range over all alternatives of X).
+        Distinct terminal strings not in `exclude`, sorted."""
+        m = self.m
+        ctx = self._contexts()
+        INF = float('inf')
+        ok = lambda P: all(m.ycost.get(s, INF) != INF for s in P.prod)
+
+        def expansions(n):
+            out = []
+            for C in m.prods_of[n]:
+                if not ok(C):
+                    continue
+                out.append(m.min_yield_seq(C.prod, table))
+                if len(C.prod) == 1 and C.prod[0] in m.nonterminals and len(m.prods_of[C.prod[0]]) <= 30:
+                    for D in m.prods_of[C.prod[0]]:
+                        if ok(D):
+                            out.append(m.min_yield_seq(D.prod, table))
+            out = list(dict.fromkeys(out))
+            if len(m.prods_of[n]) > 30:
+                # token-like nonterminals (every keyword as a name, every token of a raw query): the two shortest stand for all
+                out = sorted(out, key=len)[:2]
+            return out
+
+        memo = {}
+        out = set()
+        self.sibling_targets = 0
+        for P in m.prods[1:]:
+            if not ok(P) or P.name not in ctx:
+                continue
+            cpre, csuf = ctx[P.name]
+            nts = [i for i, s in enumerate(P.prod) if s in m.nonterminals]
+            for x in range(len(nts)):
+                for y in range(x + 1, len(nts)):
+                    i, j = nts[x], nts[y]
+                    for n in (P.prod[i], P.prod[j]):
+                        if n not in memo:
+                            memo[n] = expansions(n)
+                    a = cpre + m.min_yield_seq(P.prod[:i], table)
+                    mid = m.min_yield_seq(P.prod[i + 1:j], table)
+                    b = m.min_yield_seq(P.prod[j + 1:], table) + csuf
+                    for e1 in memo[P.prod[i]]:
+                        for e2 in memo[P.prod[j]]:
+                            self.sibling_targets += 1
+                            out.add(a + e1 + mid + e2 + b)
+        ex = set(exclude)
+        return sorted(x for x in out if x not in ex)
+
     def _contexts(self):
         """cheapest (prefix, suffix) context start =>* prefix N suffix for every nonterminal N"""
         m = self.m
